@@ -3,6 +3,9 @@ import struct as _struct
 
 WIDTH_HOT = [1, 2, 3, 7, 8, 9, 15, 16, 17, 31, 32, 33, 63, 64]
 ENUM_MAX_HOT = [0, 1, 2, 3, 4, 5, 7, 8, 15, 16, 255, 256, 1000, 65535, 65536]
+# maxima where float log2 is at its limits; only powers of two and their successors, which the code's own float formula
+# still gets right (2^k - 1 for k >= 49 is the documented over-allocation, DESIGN section 9 item 27)
+ENUM_MAX_BIG = [2 ** 31, 2 ** 32, 2 ** 32 + 1, 2 ** 49, 2 ** 49 + 1, 2 ** 52, 2 ** 53 + 1, 2 ** 62, 2 ** 62 + 1, 2 ** 63]
 
 
 def width(rng, hi=64):
@@ -117,10 +120,12 @@ class Desc:
         return d
 
 
-def gen_enums(rng, n):
+def gen_enums(rng, n, big=False):
     enums = []
     for k in range(n):
         mx = rng.choice(ENUM_MAX_HOT) if rng.random() < 0.7 else rng.randint(0, 70000)
+        if big and rng.random() < 0.15:
+            mx = rng.choice(ENUM_MAX_BIG)
         cnt = rng.randint(1, 4)
         vals = {mx}
         while len(vals) < min(cnt, mx + 1):
@@ -133,7 +138,7 @@ def gen_enums(rng, n):
 
 def gen_codec_desc(rng, max_structs=4, max_fields=6, depth=3, var=True):
     d = Desc()
-    d.enums = gen_enums(rng, rng.randint(0, 2))
+    d.enums = gen_enums(rng, rng.randint(0, 2), big=True)
     enames = [e[0] for e in d.enums]
     nstructs = rng.randint(1, max_structs)
     for s in range(nstructs):
